@@ -111,6 +111,10 @@ def run(ctx):
     conts = sb.calls_to(r"\[T\]::contains$")
     okl = len(lc) == 1 and len(conts) == 2 and all(re.search(r"to_lowercase\(", expr(sb, c.args[1])) for c in conts)
     res.check(okl, "R4.3", "str_to_bool-lowercases", sb.where(), "lookup on the lower-cased input", "str_to_bool no longer lower-cases before both lookups")
+    # the ONLY normalisation between the input and the table lookup is case folding (documented: case-insensitive literals)
+    keys = sorted(set(expr(sb, c.args[1]) for c in conts))
+    res.check(all(re.fullmatch(r"to_lowercase\((as_ref\()?val\)?\)", k) for k in keys) and bool(keys), "R4.3", "str_to_bool-only-case-folding", sb.where(), "table key = to_lowercase(input)",
+              "str_to_bool looks up %s: the input is normalised by more than case folding, so strings that are not documented literals are accepted" % keys)
     hay = sorted(expr(sb, c.args[0]).rsplit("::", 1)[-1].strip(")") for c in conts)
     res.check(hay == ["FALSE_LITERALS", "TRUE_LITERALS"], "R4.3", "str_to_bool-tables", sb.where(), "looks up TRUE_LITERALS then FALSE_LITERALS", "str_to_bool consults %s" % hay)
     # polarity: TRUE_LITERALS hit -> Some(true)
@@ -141,6 +145,35 @@ def run(ctx):
     plain = [c for c in tree_calls(pm, r"PartialEq.*::eq$") if not sp_macro(c.sp)]
     okp = bool(plain) and all(has_bool(pm, c.bb, "F", r"^ignore_case$") or c.body is not pm and any(has_bool(pm, cc.bb, "F", r"^ignore_case$") for cc in pm.calls() if c.body.q in cc.closures) for c in plain)
     res.check(okc and okp, "R4.4", "case-folding-only-when-asked", pm.where(), "eq_ignore_case only when ignore_case, exact comparison otherwise", "PossibleValue::matches folds case (or not) under the wrong condition")
+
+    # ---- R4.4b/c membership test of the possible-value parsers ranges over ALL declared values (hidden ones are declared too)
+    pvp = fx.body("<%sPossibleValuesParser as %sTypedValueParser>::parse" % (VP, VP))
+    anyc = [c for c in pvp.calls_to(r"Iterator>?::(any|all|find|position)$")]
+    memb = [c for c in anyc if any(cb.calls_to(r"PossibleValue::matches$") for cb in closure_bodies(fx, c))]
+    if not memb:
+        res.violation("R4.4", "pvp-membership", pvp.where(), "PossibleValuesParser::parse no longer decides by PossibleValue::matches over its values")
+    for c in memb:
+        src = expr(pvp, c.args[0])
+        cb = [x for x in closure_bodies(fx, c) if x.calls_to(r"PossibleValue::matches$")][0]
+        mc = cb.calls_to(r"PossibleValue::matches$")[0]
+        okm = expr(cb, 0) == "matches(v,arg1.0,arg1.1)" and c.callee_q.endswith("::any")
+        res.check(src == "iter(self.0)" and okm, "R4.4", "pvp-membership", c.where(), "accepted iff any declared value matches(value, ignore_case)",
+                  "PossibleValuesParser accepts by `%s` over %s with test %s: the admitted language is no longer exactly the declared names and aliases" % (c.callee_q.rsplit("::", 1)[1], src[:80], expr(cb, 0)[:60]))
+        ic = expr(pvp, c.args[1])
+        res.check(re.search(r"unwrap_or\(map\(arg,closure\(\)\),0\)\)$", ic) is not None and any(x.calls_to(r"Arg::is_ignore_case_set$") for cc in pvp.calls_to(r"Option::map$") for x in closure_bodies(fx, cc)),
+                  "R4.4", "pvp-ignore-case-source", c.where(), "ignore_case = arg.is_ignore_case_set() (false without an arg)", "case folding is requested by %s" % ic[-80:])
+        oks_ = [i for i, j, s_ in pvp.stmts() if s_["k"] == "assign" and s_["place"] == 0 and s_["rv"]["k"] == "agg" and s_["rv"].get("variant") == "Ok"]
+        res.check(bool(oks_) and all(has_bool(pvp, i, "T", r"^any\(iter\(self\.0\)") for i in oks_) and all(has_bool(pvp, e.bb, "F", r"^any\(iter\(self\.0\)") for e in pvp.calls_to(r"error::Error::invalid_value$")),
+                  "R4.4", "pvp-polarity", pvp.where(), "Ok on a match, invalid_value otherwise", "PossibleValuesParser returns Ok / invalid_value on the wrong edge of the membership test")
+    evp = fx.body("<%sEnumValueParser as %sTypedValueParser>::parse_ref" % (VP, VP))
+    fnd = [c for c in evp.calls_to(r"Iterator>?::(find|any|position|find_map)$") if any(cb.calls_to(r"PossibleValue::matches$") for cb in closure_bodies(fx, c))]
+    if not fnd:
+        res.violation("R4.4", "enum-membership", evp.where(), "EnumValueParser::parse_ref no longer selects the variant by PossibleValue::matches")
+    for c in fnd:
+        cb = [x for x in closure_bodies(fx, c) if x.calls_to(r"PossibleValue::matches$")][0]
+        e0 = expr(cb, 0)
+        res.check(expr(evp, c.args[0]) == "iter(value_variants())" and re.fullmatch(r"matches\(expect\(to_possible_value\(v\),.*\),arg1\.0,arg1\.1\)", e0) is not None, "R4.4", "enum-membership", c.where(),
+                  "variant = first of value_variants() whose possible value matches(value, ignore_case)", "EnumValueParser selects over %s with %s" % (expr(evp, c.args[0])[:60], e0[:80]))
 
     # ---- R4.5 typed access
     AM = "clap_builder::parser::matches::arg_matches::ArgMatches::"
